@@ -96,3 +96,21 @@ func VerifIndexFileRead(idx Index, s Store) func(dest []byte, off int64) ([]byte
 		return b, 0
 	}
 }
+
+// VerifSparseMountRead creates the node of a sparse-file mount (NewSparseMountFS) and returns the read function
+// of a new handle on its file, the function that saves its state, and a function opening further handles.
+func VerifSparseFileRead(sf *SparseFile) (func(dest []byte, off int64) ([]byte, int), error) {
+	n := &sparseIndexFile{sf: sf}
+	fh, _, errno := n.Open(nil, 0)
+	if errno != 0 {
+		return nil, errno
+	}
+	return func(dest []byte, off int64) ([]byte, int) {
+		res, errno := n.Read(nil, fh, dest, off)
+		if errno != 0 {
+			return nil, int(errno)
+		}
+		b, _ := res.Bytes(make([]byte, len(dest)))
+		return b, 0
+	}, nil
+}
